@@ -590,6 +590,51 @@ pub fn run(cfg: &Cfg) -> i32 {
         }
     }
 
+    // ---- a structure still open at the end of a source: the location names THAT source, also when
+    //      the last token that was read came from an included file or from injected text
+    {
+        let mut base = boot();
+        base.eval(": é ;").expect("define é");
+        let base_n: usize = dump_get(&base.verif_dump(), "sources_len").parse().unwrap_or(0);
+        let ok_file = format!("{}/eoi_ok.xeh", dir.display());
+        let _ = std::fs::write(&ok_file, "1 2 +\n");
+        let texts: Vec<(&str, String)> = vec![
+            ("after-include", format!("[ include \"{}\"", ok_file)),
+            ("after-include-in-definition", format!(": f include \"{}\"\n", ok_file)),
+            ("after-injected-text", ": f #( \"1 2 +\" ~)".to_string()),
+            ("after-injected-text-in-vector", "[ #( \"7\" ~)\n".to_string()),
+            ("plain-vector", "[ 1 2\n\n".to_string()),
+            ("plain-definition", ": g 1\n".to_string()),
+            ("after-comment", "[ 1 \\ c\n".to_string()),
+        ];
+        for (name, text) in &texts {
+            let mut xs = base.clone();
+            let r = guarded(|| xs.eval(text));
+            cases.fetch_add(1, Ordering::Relaxed);
+            evals.fetch_add(1, Ordering::Relaxed);
+            if !matches!(r, Ok(Err(_))) {
+                vacuous(&format!("vacuous: C17 end-of-input template {} did not fail", name));
+                continue;
+            }
+            let want = format!("<buffer#{}>", base_n);
+            let got = xs.last_err_location().map(|l| l.filename.to_string());
+            cover.merge(&BTreeMap::from([("end-of-input:judged".to_string(), 1u64)]));
+            if got.as_deref() != Some(&want) {
+                rep.report_w(&format!("eoi:wrong-source:{}", name), text.len() as u64, || {
+                    jo(vec![
+                        ("kind", js("c17-end-of-input")),
+                        ("boot", js(": é ;")),
+                        ("source", js(text.clone())),
+                        ("included_file_content", js("1 2 +\n")),
+                        ("expected_source", js(want.clone())),
+                        ("observed_source", js(format!("{:?}", got))),
+                        ("what", js("a structure left open at the end of a source must be reported in that source")),
+                    ])
+                });
+            }
+        }
+    }
+
     let _ = std::fs::remove_dir_all(&dir);
     let u = unexpected.into_inner().unwrap();
     if !u.is_empty() {
